@@ -23,7 +23,7 @@ import cxxbuild  # noqa: E402
 
 def sh(cmd, cwd=None, timeout=3600, env=None, input=None):
     p = subprocess.run(cmd, cwd=cwd, shell=isinstance(cmd, str), stdout=subprocess.PIPE,
-                       stderr=subprocess.STDOUT, text=True, timeout=timeout, env=env, input=input)
+                       stderr=subprocess.STDOUT, text=True, errors="replace", timeout=timeout, env=env, input=input)
     return p.returncode, p.stdout
 
 
@@ -180,7 +180,7 @@ def run_cases_sharded(exe, case_texts, shards=16, timeout=120, single_timeout=20
     def one(chunk, to):
         try:
             p = subprocess.run([exe], input="".join(chunk), stdout=subprocess.PIPE, stderr=subprocess.PIPE,
-                               text=True, timeout=to)
+                               text=True, errors="replace", timeout=to)
             return p.stdout, []
         except subprocess.TimeoutExpired:
             return None, chunk
@@ -202,7 +202,7 @@ def run_cases_sharded(exe, case_texts, shards=16, timeout=120, single_timeout=20
 
 def run_prog(exe, stdin_text, timeout=1800, env=None):
     p = subprocess.run([exe], input=stdin_text, stdout=subprocess.PIPE, stderr=subprocess.PIPE,
-                       text=True, timeout=timeout, env=env)
+                       text=True, errors="replace", timeout=timeout, env=env)
     return p.returncode, p.stdout, p.stderr
 
 
